@@ -7,7 +7,7 @@ import (
 	"verif/engine"
 )
 
-const nOpaque = 22
+const nOpaque = 25
 
 func opaqueMask() uint32 {
 	var m uint32
@@ -21,7 +21,7 @@ func init() {
 	register(&CheckDef{
 		ID:        "C20",
 		Level:     "model_checking",
-		Technique: "bounded symbolic execution on lazy symbolic documents whose leaves range over 22 non-JSON Go value prototypes besides the JSON kinds; Go's interface equality (including the run-time panic on uncomparable dynamic types) is implemented in the engine; results compared with the reference evaluator",
+		Technique: "bounded symbolic execution on lazy symbolic documents whose leaves range over 25 non-JSON Go value prototypes besides the JSON kinds; Go's interface equality (including the run-time panic on uncomparable dynamic types) is implemented in the engine; results compared with the reference evaluator",
 		Jobs: func(tier string, seed int64) []*engine.Job {
 			rng := rand.New(rand.NewSource(seed + 20))
 			sp := stepPaths(tier, rng)
